@@ -147,7 +147,9 @@ def r2_copy(ctx, prog):
     cenv = {'isInitialised': 1, re.compile(r'getBooleanValue\(%s,CKA_PRIVATE,\w+\)' % obj): 0, re.compile(r'getBooleanValue\(%s,CKA_COPYABLE,\w+\)' % obj): 1,
             re.compile(r'isByteStringAttribute\(.*\)'): 1, re.compile(r'size\(getByteStringValue\(.*\)\)'): 16,
             re.compile(r'%s\[\w+\]\.type' % param_name(f, 2)): macro(prog, 'CKA_PRIVATE'), re.compile(r'%s\[\w+\]\.ulValueLen' % param_name(f, 2)): 1, re.compile(r'\*%s\[\w+\]\.pValue' % param_name(f, 2)): 1, param_name(f, 3): 1}
-    o = Outcomes(f, prog, cenv=cenv, record_calls={'encrypt', 'setAttribute', 'createObject'})
+    from rules.c16 import FactOutcomes
+    o = FactOutcomes(f, prog, cenv=cenv, record_calls={'encrypt', 'setAttribute', 'createObject'})
+    o.FACT_RX = re.compile(r'^is\w*Private$')
     o.CAP = 32
     o.LOOP_ROUNDS = 2
     o.go()
@@ -158,8 +160,11 @@ def r2_copy(ctx, prog):
         evs = oc['events']
         i = evs.index(e)
         val = e[2][2] if len(e[2]) > 2 else '?'
-        enc_before = [x for x in evs[:i] if x[1] == 'encrypt' and len(x[2]) >= 3 and x[2][2] in val]
-        if not enc_before:
+        enc_before = [x for x in evs[:i] if x[0] == 'call' and x[1] == 'encrypt' and len(x[2]) >= 3 and x[2][2] in val]
+        # the new object's privacy flag may have been read from the template by a helper: then the path says whether this is an upgrade (flag true) or not (false)
+        flag = [x[2] for x in evs[:i] if x[0] == 'fact']
+        no_upgrade = bool(flag) and flag[-1] is False
+        if not enc_before and not no_upgrade:
             bad = (oc, e)
             break
     site = 'public-to-private upgrade'
